@@ -524,6 +524,9 @@ package proxy
 //@   sendpre sendChan: @private_copy: $value.Resp != msg.Resp && $value.Resp != nil && fresh($value.Resp) && thisIteration($value.Resp)
 // the hand-off is retried until it is ACCEPTED: a target is ticked off only on the strength of a hand-off to that very
 // target that has just been reported as delivered
+// the hand-off registers a target in the ack aggregation only while it is ABSENT from it: the level of a target that
+// has already reported is raised by that target's own acknowledgements alone (sendAck), never by a later hand-off
+//@   storepre ackByTarget: @registration_only_when_absent: !$present
 //@   storepre sentByTarget: @only_after_accepted_handoff: $value ==> (r.handOffOK && $key == r.handOffTarget)
 //@   loop 1 invariant @every_watermark_broadcast: calls(GetRemoteSendChansByCluster) == r.wmOnly - old(r.wmOnly)
 //@   wakeup shutdownChan.Channel()
@@ -857,6 +860,10 @@ package proxy
 //@   props C09
 //@   requires sm.localShards != nil
 //@   callpre broadcastShardChange: @claim_time_announced: $msgType == "register" && $shard == clientShardID && $at == registeredAt
+// ... and EVERY claim is announced, a re-registration on the same instance included: it moves this instance's claim time
+// forward, and peers that compare their own claim with the time they were last told would otherwise keep a second owner
+//@   counts broadcastShardChange
+//@   ensures @every_claim_announced: calls(broadcastShardChange) == 1
 
 // C09: a full-state merge records exactly the decoded state under the sender's node name.
 //@ contract (*shardDelegate).MergeRemoteState
